@@ -19,7 +19,7 @@ pub struct Case {
     pub probe: Option<String>,
 }
 
-pub const PROBES: [&str; 20] = [
+pub const PROBES: [&str; 22] = [
     "pronoun_after_if",
     "pronoun_write_after_if",
     "pronoun_after_call",
@@ -40,6 +40,8 @@ pub const PROBES: [&str; 20] = [
     "function_visible_again_after_shadowing_call",
     "duplicate_parameter",
     "single_declaring_statement_in_block",
+    "parameter_named_like_its_function",
+    "function_defined_twice",
 ];
 
 impl Prop for C05 {
